@@ -35,14 +35,16 @@ MANIFEST_ENTRY = {
         "here it is compared to the millisecond end to end. Trusted: Lean kernel, harness, driver, mp4walk, mp4synth, shims."),
     "technique": "Lean 4 proof (case analysis, induction over the timeline loop and over the box list) + model/implementation correspondence",
 }
-PROP_FILES = ["DashLive/Props/C06.lean", "DashLive/Props/GenTie.lean"]
-LEAN_TARGETS = ["DashLive.Props.C06", "DashLive.Props.GenTie"]
+PROP_FILES = ["DashLive/Props/C06.lean", "DashLive/Props/GenTie.lean", "DashLive/Props/GenTieTimeline.lean"]
+LEAN_TARGETS = ["DashLive.Props.C06", "DashLive.Props.GenTie", "DashLive.Props.GenTieTimeline"]
 
 
 def _gen_arith():
     """Gen/Arith.lean is translated from /repo's source text; Props/GenTie.lean ties it to the model"""
     import gen_arith
+    import gen_timeline
     gen_arith.main()
+    gen_timeline.main()
 
 GENERATORS = [_gen_arith]
 TRUSTED = ["harness/mp4walk.py, harness/mp4synth.py, harness/segwalk.py, /verif/shims"]
